@@ -230,6 +230,41 @@ pub fn run(rep: &mut Report, backend: Bk, thorough: bool) {
         }
     }
 
+    // ---- a member first tries to re-bind its leaf to the victim's identity, then writes as the victim -------------
+    {
+        let victim = pk_of("B").unwrap();
+        for (label, content) in [("update-path-with-victims-identity-same-signature-key", CommitContent::PathWithIdentity("B".into()))] {
+            let s = w.initial["M"].fork();
+            let Ok(swap) = raw_commit(&s, &w.gid, &content, &pk_of, None, now_ts - 6) else {
+                rep.outcome(&format!("identity-swap-not-buildable:{label}"));
+                continue;
+            };
+            // the sender goes on from the state its own commit leads to
+            let merged = with_mdk!(s, m => { m.load_mls_group(&w.gid).ok().flatten().map(|mut g| g.merge_pending_commit(&m.provider).is_ok()).unwrap_or(false) });
+            let payload = rumor_json(&victim, None, 9, &Tags::new(), now_ts - 10, "written-by-m-as-the-victim");
+            let forged = app_message(&s, &w.gid, &payload, now_ts - 4);
+            let r = stored.fork();
+            let before = all_messages(&r);
+            let r1 = result_kind(&r.process(&swap));
+            let r2 = match &forged {
+                Ok(e) => result_kind(&r.process(e)),
+                Err(_) => "not-buildable".into(),
+            };
+            let after = all_messages(&r);
+            rep.case(&format!("identity-swap|{label}|merged={merged}|{r1}|{r2}"));
+            rep.evaluations += 1;
+            let mut bad = judge(&before, &after, &w.initial["M"].pk(), &g1);
+            if after.values().any(|m| m.content == "written-by-m-as-the-victim" && m.pubkey == victim) {
+                bad.push("message-stored-under-the-victims-identity".into());
+            }
+            bad.sort();
+            bad.dedup();
+            for b in bad {
+                rep.finding(format!("C04|{b}|sender=member|{label}"), format!("member M sends a commit with {label} ({r1}) and then a rumor naming the victim as author ({r2}): {b}"), json!({"commit_result": r1, "message_result": r2}));
+            }
+        }
+    }
+
     // ---- replays and re-wrappings of captured ciphertexts ----------------------------------------
     let captured: Vec<(&str, &Event)> = vec![("victims", &w.pool[v0].event), ("members-own", &w.pool[m0].event), ("commit", &w.pool[rm].event)];
     for (clabel, ev) in &captured {
@@ -526,6 +561,82 @@ pub fn two_group_routing(rep: &mut Report, backend: Bk) {
                 format!("member of both groups, deliveries [{}]: at the end {missing:?} are not stored as processed in their group", trace.join(" ; ")),
                 json!({"trace": trace, "backend": format!("{backend:?}")}),
             );
+        }
+    }
+}
+
+/// A message that is saved twice under one id keeps the binding between its id and its stored fields: the author's
+/// own copy when its echo arrives, and a rumor its author sent twice (publish retry: two ciphertexts, one rumor id).
+/// The rumor's created_at lies well before the time of processing, so the two timestamps of a message differ.
+pub fn resave_cases(rep: &mut Report, backend: Bk) {
+    let sc = base("c04-resave", &["A", "M", "Z"], &["A"], &[], vec![]);
+    let w = match build_world(&sc, backend) {
+        Ok(w) => w,
+        Err(e) => {
+            rep.machinery_errors.push(format!("c04 resave world: {}", e.0));
+            return;
+        }
+    };
+    let now_ts = now();
+    let g1 = hx(w.gid.as_slice());
+    // (a) own echo of a back-dated message
+    {
+        let z = w.initial["Z"].fork();
+        let r = rumor(&z.keys, "own-backdated", now_ts - 5000);
+        if let Ok(ev) = with_mdk!(z, m => m.create_message(&w.gid, r)) {
+            let before = all_messages(&z);
+            let rk = result_kind(&z.process(&ev));
+            let after = all_messages(&z);
+            rep.case(&format!("resave|own-echo|{backend:?}|{rk}"));
+            rep.evaluations += 1;
+            let mut bad = judge(&before, &after, &z.pk(), &g1);
+            bad.retain(|b| b != "existing-own-message-altered"); // the state goes from created to processed: allowed
+            for (k, m) in &after {
+                if let Some(o) = before.get(k) {
+                    if o.created_at != m.created_at || o.content != m.content || o.pubkey != m.pubkey || o.id != m.id {
+                        bad.push("own-message-fields-changed-by-its-echo".into());
+                    }
+                }
+            }
+            bad.sort();
+            bad.dedup();
+            for b in bad {
+                rep.finding(format!("C04|{b}|resave=own-echo|{backend:?}"), format!("a member's own back-dated message after its echo ({rk}): {b}"), json!({"backend": format!("{backend:?}"), "after": after.values().map(msg_fields).collect::<Vec<_>>()}));
+            }
+        }
+    }
+    // (b) the same rumor sent twice by its author
+    {
+        let m_cl = w.initial["M"].fork();
+        let z = w.initial["Z"].fork();
+        let payload = rumor_json(&m_cl.pk(), None, 9, &Tags::new(), now_ts - 5000, "sent-twice");
+        if let (Ok(e1), Ok(e2)) = (app_message(&m_cl, &w.gid, &payload, now_ts - 9), app_message(&m_cl, &w.gid, &payload, now_ts - 8)) {
+            let before = all_messages(&z);
+            let r1 = result_kind(&z.process(&e1));
+            let mid = all_messages(&z);
+            let r2 = result_kind(&z.process(&e2));
+            let after = all_messages(&z);
+            rep.case(&format!("resave|sent-twice|{backend:?}|{r1}|{r2}"));
+            rep.evaluations += 1;
+            let mut bad = judge(&before, &mid, &m_cl.pk(), &g1);
+            bad.extend(judge(&mid, &after, &m_cl.pk(), &g1));
+            // the second ciphertext may refresh bookkeeping (wrapper id, processing time); what the id commits to stays
+            bad.retain(|b| b != "existing-own-message-altered");
+            for (k, m) in &after {
+                if let Some(o) = mid.get(k) {
+                    if o.created_at != m.created_at || o.content != m.content || o.pubkey != m.pubkey || o.id != m.id || o.kind != m.kind || o.tags != m.tags {
+                        bad.push("message-fields-changed-by-the-second-copy".into());
+                    }
+                }
+            }
+            if after.values().filter(|m| m.content == "sent-twice").count() > 1 {
+                bad.push("second-copy".into());
+            }
+            bad.sort();
+            bad.dedup();
+            for b in bad {
+                rep.finding(format!("C04|{b}|resave=rumor-sent-twice|{backend:?}"), format!("one rumor sent twice by its author ({r1}, {r2}): {b}"), json!({"backend": format!("{backend:?}"), "after": after.values().map(msg_fields).collect::<Vec<_>>()}));
+            }
         }
     }
 }
